@@ -2,9 +2,13 @@
    [HashLaws] (output lengths) is PROVED for SHA-256/384/512 and HMAC in
    Theory/HashConcrete.v.  [GroupLaws] (the OPRF group and the key-exchange
    group behave as groups, encodings of valid values round-trip) is proved for
-   the toy suite (Toy/Toy.v) and is a HYPOTHESIS for the concrete curves
-   (DESIGN.md 6: no elliptic-curve formalisation is available here); it is what
-   the correspondence check validates against the four Rust implementations. *)
+   the toy suite (Toy/Toy.v).  For the 20 concrete suites Theory/GroupSplit.v
+   PROVES nine of its fifteen fields (samplers, hash-to-scalar, comparison, seeded
+   key derivation, decoder validity via CodecLaws, shared-secret length) and
+   collects the other six - facts of elliptic-curve arithmetic - in [CurveLaws],
+   the only hypothesis left at a concrete suite (DESIGN.md 6: no elliptic-curve
+   formalisation is available here); those six are what the correspondence
+   check validates against the four Rust curve implementations. *)
 From Coq Require Import List Arith Lia Bool.
 From OKE Require Import Bytes Suite Generated.
 Import ListNotations.
@@ -31,7 +35,7 @@ Section G.
   Record GroupLaws : Prop := {
     (* OPRF group: prime order, scalars act on it *)
     g_mul_valid : forall P s, ve P -> vs s -> ve (o_mul O P s);
-    g_mul_comm : forall P a b, o_mul O (o_mul O P a) b = o_mul O (o_mul O P b) a;
+    g_mul_comm : forall P a b, ve P -> vs a -> vs b -> o_mul O (o_mul O P a) b = o_mul O (o_mul O P b) a;
     g_mul_inv : forall P r, ve P -> vs r -> o_mul O (o_mul O P r) (o_inv O r) = P;
     g_random_valid : forall t r t', o_random_scalar O t = Some (r, t') -> vs r;
     g_h2s_valid : forall m d, o_is_zero O (o_h2s O m d) = false -> vs (o_h2s O m d);
@@ -40,7 +44,8 @@ Section G.
     g_deser_valid : forall b e, o_deser_e O b = Some e -> ve e;
     g_deser_s_valid : forall b s, length b = o_Nok O -> o_deser_s O b = Some s -> vs s;
     (* key-exchange group *)
-    g_derive_valid : forall h id seed s, k_derive K h id seed = Some s -> vk s;
+    (* key derivation from a seed of the private-key length (what HKDF-Expand and the tape deliver) *)
+    g_derive_valid : forall h id seed s, length seed = k_Nsk K -> k_derive K h id seed = Some s -> vk s;
     g_pub_valid : forall s, vk s -> vp (k_pub K s);
     g_dh_sym : forall a b, vk a -> vk b -> k_dh K (k_pub K a) b = k_dh K (k_pub K b) a;
     g_dh_len : forall p s, vp p -> vk s -> length (k_dh K p s) = k_Npk K;
